@@ -173,6 +173,23 @@ def _anchored(cfg: CFG, rd, k: Node, fn: ast.AST) -> Tuple[bool, str]:
     v = k.stmt.value
     # equality on an extracted field is anchored by definition
     if isinstance(v, ast.Compare) and len(v.ops) == 1 and isinstance(v.ops[0], ast.Eq):
+        # ... unless what is compared is only a part of the name: a projection that drops directories (basename, the
+        # last element of a split) makes 'detail/config.h' equal to 'config.h'
+        def projected(e: ast.AST, depth: int = 0) -> bool:
+            for x in ast.walk(e):
+                if isinstance(x, ast.Call) and (norm(x.func).endswith("basename") or norm(x.func).endswith(".name") or (isinstance(x.func, ast.Attribute) and x.func.attr in ("rpartition", "rsplit", "split", "partition"))):
+                    return True
+                if isinstance(x, ast.Attribute) and x.attr in ("name", "stem") and not isinstance(fn, type(None)):
+                    return True
+                if isinstance(x, ast.Name) and depth < 3:
+                    for di in rd.get(k.id, {}).get(x.id, ()):
+                        d = cfg.nodes[di]
+                        val = getattr(d.stmt, "value", None)
+                        if val is not None and d is not cfg.entry and projected(val, depth + 1):
+                            return True
+            return False
+        if projected(v):
+            return False, f"`{short(k.stmt)}` compares only the last path component"
         return True, ""
     if not (isinstance(v, ast.Call) and isinstance(v.func, ast.Attribute) and v.func.attr == "endswith" and v.args):
         return False, f"`{short(k.stmt)}` is neither an anchored endswith nor an equality"
